@@ -11,6 +11,8 @@ import (
 	"sort"
 	"strconv"
 	"strings"
+	"sync"
+	"time"
 
 	"github.com/mmcloughlin/addchain"
 	"github.com/mmcloughlin/addchain/acc"
@@ -132,6 +134,9 @@ func Run(c string) string {
 	if len(f) != 2 {
 		panic("unknown case " + c)
 	}
+	if f[0] == "cbuild" {
+		return "ok " + strings.Join(ConcurrentBuild(ParseMulti(f[1])), "|")
+	}
 	p := ParseOps(f[1])
 	p0 := append(addchain.Program{}, p...)
 	res := run(f[0], p)
@@ -208,6 +213,197 @@ func run(fn string, p addchain.Program) string {
 		return "ok -"
 	}
 	panic("unknown function " + fn)
+}
+
+// ParseMulti splits the argument of a cbuild case into its programs.
+func ParseMulti(s string) []addchain.Program {
+	ps := []addchain.Program{}
+	for _, f := range strings.Split(s, "|") {
+		ps = append(ps, ParseOps(f))
+	}
+	return ps
+}
+
+// buildOutcome is one call of Decompile + Build + String as an outcome token: the encoded tree,
+// or "!err <class>" / "!panic <class>"; a text that differs from printing the tree is reported too.
+func buildOutcome(p addchain.Program) (out string) {
+	defer func() {
+		if v := recover(); v != nil {
+			out = "!panic " + PanicClass(v)
+		}
+	}()
+	q, err := acc.Decompile(p)
+	if err != nil {
+		return "!err " + ErrClass(err)
+	}
+	s, err := acc.Build(q)
+	if err != nil {
+		return "!err " + ErrClass(err)
+	}
+	text, err := acc.String(q)
+	if err != nil {
+		return "!err " + ErrClass(err)
+	}
+	want, err := printer.String(s)
+	if err != nil {
+		return "!err other"
+	}
+	if text != want {
+		return EncodeAST(s) + " <acc.String differs from the printed tree>"
+	}
+	return EncodeAST(s)
+}
+
+// ConcurrentBuild builds independent programs at the same time: G goroutines, started together
+// behind a barrier, goroutine g building program g mod len(ps) several times; rounds are repeated for
+// a fixed wall time (at least minRounds). Returns, per program, the distinct outcomes seen, sorted and
+// joined by " ~ " (exactly one on a correct implementation: the sequential outcome).
+func ConcurrentBuild(ps []addchain.Program) []string {
+	const G, inner, minRounds = 8, 4, 10
+	budget := 350 * time.Millisecond
+	seen := make([]map[string]bool, len(ps))
+	for k := range seen {
+		seen[k] = map[string]bool{}
+	}
+	var mu sync.Mutex
+	start := time.Now()
+	for round := 0; round < minRounds || time.Since(start) < budget; round++ {
+		var wg sync.WaitGroup
+		gate := make(chan struct{})
+		for g := 0; g < G; g++ {
+			wg.Add(1)
+			go func(g int) {
+				defer wg.Done()
+				k := g % len(ps)
+				p := append(addchain.Program{}, ps[k]...)
+				<-gate
+				for t := 0; t < inner; t++ {
+					o := buildOutcome(p)
+					mu.Lock()
+					seen[k][o] = true
+					mu.Unlock()
+				}
+			}(g)
+		}
+		close(gate)
+		wg.Wait()
+	}
+	res := make([]string, len(ps))
+	for k := range ps {
+		os := []string{}
+		for o := range seen[k] {
+			os = append(os, o)
+		}
+		sort.Strings(os)
+		res[k] = strings.Join(os, " ~ ")
+	}
+	return res
+}
+
+// DecodeAST reads the prefix encoding back (for the oracles of cbuild).
+func DecodeAST(s string) (*ast.Chain, error) {
+	c := &ast.Chain{}
+	if s == "-" {
+		return c, nil
+	}
+	for _, st := range strings.Split(s, ";") {
+		eq := strings.Index(st, "=")
+		if eq < 0 {
+			return nil, fmt.Errorf("statement without '='")
+		}
+		toks := strings.Fields(strings.NewReplacer("(", " ( ", ")", " ) ").Replace(st[eq+1:]))
+		pos := 0
+		var expr func() (ast.Expr, error)
+		expr = func() (ast.Expr, error) {
+			if pos+1 >= len(toks) || toks[pos] != "(" {
+				return nil, fmt.Errorf("malformed tree")
+			}
+			kind := toks[pos+1]
+			pos += 2
+			var e ast.Expr
+			switch kind {
+			case "op":
+				e = ast.Operand(lib.Atoi(toks[pos]))
+				pos++
+			case "id":
+				e = ast.Identifier(lib.ParseBytes(toks[pos]))
+				pos++
+			case "add":
+				x, err := expr()
+				if err != nil {
+					return nil, err
+				}
+				y, err := expr()
+				if err != nil {
+					return nil, err
+				}
+				e = ast.Add{X: x, Y: y}
+			case "dbl":
+				x, err := expr()
+				if err != nil {
+					return nil, err
+				}
+				e = ast.Double{X: x}
+			case "shl":
+				x, err := expr()
+				if err != nil {
+					return nil, err
+				}
+				e = ast.Shift{X: x, S: uint(lib.Atoi(toks[pos]))}
+				pos++
+			default:
+				return nil, fmt.Errorf("unknown node %q", kind)
+			}
+			if pos >= len(toks) || toks[pos] != ")" {
+				return nil, fmt.Errorf("malformed tree")
+			}
+			pos++
+			return e, nil
+		}
+		e, err := expr()
+		if err != nil {
+			return nil, err
+		}
+		c.Statements = append(c.Statements, ast.Statement{Name: ast.Identifier(lib.ParseBytes(st[:eq])), Expr: e})
+	}
+	return c, nil
+}
+
+// CheckConcurrent is the oracle of a cbuild case: every outcome observed for every program is the
+// sequential outcome of that program, and its tree passes check (names oracle / chain oracle).
+func CheckConcurrent(c, res string, check func(p addchain.Program, s *ast.Chain) string) string {
+	f := strings.Split(c, " ")
+	ps := ParseMulti(f[1])
+	for _, p := range ps {
+		if !Valid(p) {
+			return ""
+		}
+	}
+	if !strings.HasPrefix(res, "ok ") {
+		return "valid programs not processed: " + res
+	}
+	per := strings.Split(strings.TrimPrefix(res, "ok "), "|")
+	if len(per) != len(ps) {
+		return "wrong number of results"
+	}
+	for k, p := range ps {
+		seq := buildOutcome(p)
+		for _, o := range strings.Split(per[k], " ~ ") {
+			if strings.HasPrefix(o, "!") {
+				return fmt.Sprintf("concurrent build of program %d (%s) failed: %s", k+1, FormatOps(p), o[1:])
+			}
+			enc := strings.SplitN(o, " <", 2)
+			if s, err := DecodeAST(enc[0]); err != nil {
+				return "harness: cannot decode a tree: " + err.Error()
+			} else if m := check(p, s); m != "" {
+				return fmt.Sprintf("concurrent build of program %d (%s): %s", k+1, FormatOps(p), m)
+			}
+			if o != seq {
+				return fmt.Sprintf("concurrent build of program %d (%s) differs from its sequential build", k+1, FormatOps(p))
+			}
+		}
+	}
+	return ""
 }
 
 // Rebuilt is what repeated use of one decompiled program gives.
@@ -721,6 +917,17 @@ func Neighbours(c string, r *lib.Rand, emit func(string)) {
 	if len(f) != 2 {
 		return
 	}
+	if f[0] == "cbuild" { // the same programs in another arrangement, and pairs of them
+		ps := strings.Split(f[1], "|")
+		for i := range ps {
+			for j := range ps {
+				if i != j {
+					emit("cbuild " + ps[i] + "|" + ps[j])
+				}
+			}
+		}
+		return
+	}
 	p := ParseOps(f[1])
 	out := func(q addchain.Program) {
 		if Valid(q) {
@@ -820,7 +1027,7 @@ func searchPrograms(r *lib.Rand, tier string, f func(addchain.Program)) {
 
 // Gen emits, for every generated program, one case line per function in fns; the structured
 // streams (not the exhaustive small scope) also get the functions in more.
-func Gen(fns []string, more []string) func(tier string, r *lib.Rand, emit func(string)) {
+func Gen(fns []string, more []string, ncbuild int) func(tier string, r *lib.Rand, emit func(string)) {
 	return func(tier string, r *lib.Rand, emit func(string)) {
 		out := func(p addchain.Program) {
 			s := FormatOps(p)
@@ -899,6 +1106,37 @@ func Gen(fns []string, more []string) func(tier string, r *lib.Rand, emit func(s
 				}
 			}
 		}
+		// (a3) independent programs built at the same time from several goroutines (process-wide
+		// state shared between builds): ladders and boundary programs (2^n - 2 next to 2^n - 1, true
+		// runs of nine and more bits), a long random program, a search result
+		ncb := ncbuild
+		if tier == "thorough" {
+			ncb *= 8
+		}
+		var searched, found []addchain.Program // the search algorithms run once; also stream (c)
+		searchPrograms(r, tier, func(p addchain.Program) {
+			q := append(addchain.Program{}, p...)
+			searched = append(searched, q)
+			if len(p) > 20 && len(found) < 64 {
+				found = append(found, q)
+			}
+		})
+		for i := 0; i < ncb; i++ {
+			ps := []addchain.Program{
+				LadderProgram(r, r.Range(10, 24), i%3, i%2 == 1),
+				LadderProgram(r, r.Range(10, 24), (i+1)%3, true),
+				BoundaryProgram(r, r.Range(9, 24)),
+				RandomProgram(r, r.Range(30, 120)),
+			}
+			if len(found) > 0 && i%2 == 0 {
+				ps[3] = found[r.Intn(len(found))]
+			}
+			ss := make([]string, len(ps))
+			for k, p := range ps {
+				ss[k] = FormatOps(p)
+			}
+			emit("cbuild " + strings.Join(ss, "|"))
+		}
 		// (b) structured random programs
 		for i := 0; i < nrand; i++ {
 			outAll(RandomProgram(r, r.Range(6, 40)))
@@ -907,7 +1145,9 @@ func Gen(fns []string, more []string) func(tier string, r *lib.Rand, emit func(s
 			outAll(RandomProgram(r, r.Range(60, 400)))
 		}
 		// (c) what the search algorithms return
-		searchPrograms(r, tier, outAll)
+		for _, p := range searched {
+			outAll(p)
+		}
 		// (d) malformed: operands out of range, forward references, duplicates
 		for i := 0; i < nbad; i++ {
 			p := RandomProgram(r, r.Range(1, 12))
